@@ -21,6 +21,28 @@ CHECKS = {
     "JsMapKey eq/hash (SameValueZero, eq => equal hash) are executed symbolically from BytecodeVM::execute_op's MIR and shown equal to the "
     "ECMAScript abstract operations written in SMT. No loop, no bound on values. Parser, compiler, strings, objects and the library - "
     "the bulk of the property - are outside the claim.")),
+ 'C08': dict(design='section 3, C08', text=(
+    "Kernel claim: the ledger hand-over step. Interpreter::process_vm_result (every VmResult variant) and Interpreter::step entered with "
+    "no active VM are executed symbolically on a lazily materialised Interpreter whose pending/cancelled order lists (any length), "
+    "suspended_for_order and waiting-context map are arbitrary: Complete only when nothing is outstanding, every Suspended carries exactly "
+    "the old pending/cancelled contents and empties both (handed over exactly once), Suspended only when the host can still act, Done "
+    "only when nothing waits. Who files orders, promise settlement, combinators and the resume half of step are outside the claim.")),
+ 'C11': dict(design='section 3, C11', text=(
+    "Kernel claim: terminal-step bookkeeping. Interpreter::step with an active VM (BytecodeVM::step havoc'd to any VmStepResult and any "
+    "change of interpreter state except the run bookkeeping) plus finalize_active_execution/process_vm_result: after a terminal Complete "
+    "or Err the environment is the one saved at prepare() and active_saved_env/active_module_env/active_module_path are cleared; a run "
+    "that can continue keeps them. Abandoned runs and unwinding inside the VM are outside the claim.")),
+ 'C19': dict(design='section 3, C19', text=(
+    "Kernel claim (relational): Interpreter::run_vm_to_completion (eval route) and Interpreter::process_vm_result (step route) executed "
+    "from the same symbolic interpreter state on the same symbolic VmResult return the same Result<StepResult,_>, make the same calls with "
+    "the same arguments in the same order and leave the same ledger, on every jointly feasible path pair. Export finalisation, the C API "
+    "and vm.run vs vm.step are outside the claim (a few concrete eval-vs-step programs are only a replay route).")),
+ 'C10': dict(design='section 3, C10', text=(
+    "Kernel claim. (a) One operation of RegisterAllocator::{alloc,free,reserve_range,save,restore} from an ARBITRARY pre-state satisfying "
+    "the representation invariant (itself proved inductive): handed-out registers are never live, stay below max_used <= 255, Err only "
+    "when nothing fits; free lists up to 3 (quick) / 6 (thorough) entries, all register values. (b) BytecodeBuilder::add_constant for any "
+    "pool length (index == old length < 65535 or Err), emit_load_number for every f64 (LoadInt only when exact). 'Limits are never "
+    "cumulative', nesting depth and run-time lengths are outside the claim.")),
  'C15': dict(design='section 3, C15', text=(
     "Kernel claim. (a) ToInt32/ToUint32: the seven bitwise VM arms on every f64 bit pattern and undefined/null/boolean operands equal "
     "the ECMAScript definitions written over the IEEE-754 bit fields (complete operand domain, no bound). (b) PropertyKey::from_value on "
